@@ -97,10 +97,14 @@ def run_case(case):
         else:
             r.fail('%s:%s:dim%d' % (what, mode, dim), msg)
 
+    rw = c01.ref_wavelet(case)
+    r.label('rescaled_filter_bank' if case.get('wave_form') == 'tuple' and case.get('fb_scale', [1.0, 1.0]) != [1.0, 1.0]
+            else None)
+
     def ref(yl, yh):
         if dim == 1:
-            return dwtu.ref_waverec(yl, yh, w, mode)
-        return dwtu.ref_waverec2(yl, yh, w, mode)
+            return dwtu.ref_waverec(yl, yh, rw, mode)
+        return dwtu.ref_waverec2(yl, yh, rw, mode)
 
     def call(yl, yh, use_mask):
         tl = torch.tensor(yl[:, None] if yl.ndim == dim + 1 else yl, dtype=tdt)
